@@ -141,6 +141,16 @@ theorem witness_rootScalar_before :
     modifySpec [] inc (.int 5) = .int 6 ∧
     modifyM false { Dev.before with rootScalar := false } false inc [] (.int 5) = .ok (.int 6) := ⟨by rfl, by rfl, by rfl⟩
 
+/-- delOneAbsent (the code as it is): `DelOne $[*].a` on `[{"b":3},{"a":1}]` returns after the first object, which has no
+`a`, and deletes nothing although `$[1].a` is selected; RemoveOne on the same path removes it -/
+theorem witness_delOneAbsent :
+    setM false Dev.current true .del [.wild, .child kA] (.arr [.obj [(kB, .int 3)], objA 1]) = .ok (.arr [.obj [(kB, .int 3)], objA 1]) ∧
+    locs [.wild, .child kA] (.arr [.obj [(kB, .int 3)], objA 1]) = [[.idx 1, .key kA]] ∧
+    setM false { Dev.current with delOneAbsent := false } true .del [.wild, .child kA] (.arr [.obj [(kB, .int 3)], objA 1])
+      = .ok (.arr [.obj [(kB, .int 3)], .obj []]) ∧
+    removeM false Dev.current true [.wild, .child kA] (.arr [.obj [(kB, .int 3)], objA 1]) = .ok (.arr [.obj [(kB, .int 3)], .obj []]) :=
+  ⟨by rfl, by rfl, by rfl, by rfl⟩
+
 /-- a location that is selected twice (a union that lists it twice): the modifier is applied twice. This is
 not behind a deviation flag (the traversal works once per occurrence, as Get lists the element twice); it is
 the excluded predicate `unionLocs … Nodup` of the theorems below. -/
@@ -430,7 +440,8 @@ theorem current_is_source :
         genUnionOOB := !Gen.JpMut.genUnionGuarded
         genModifyNil := !Gen.JpMut.modifyNodeNullSafe
         filterMapNil := !Gen.JpMut.modifyReflectNullSafe
-        rootScalar := !Gen.JpMut.modifyRootPushed } := by decide
+        rootScalar := !Gen.JpMut.modifyRootPushed
+        delOneAbsent := true } := by decide
 
 /-! ### what the code as it is does, for EVERY slice: the inclusive reading
 
